@@ -13,27 +13,15 @@ CONSTANTS
   ZDCode = {30309,60475,90600,100636,120703,140765,160822,170849,200926,1002127,3003705}
   Delivery = "by_prior"
   Passes = "user_table"
-  QNum = {0,7,11,12,13,15,24,1012}
+  QNum = {0,13}
   QShift = 12
-  QDen = {1,4}
-  ENum = {0,6,9,12,14,18}
+  QDen = {1}
+  ENum = {6,14}
   EShift = 12
-  SNum = {1,3,25}
-  SDen = {1,10}
-  Args = "read_only"
+  SNum = {1}
+  SDen = {1}
+  Args = "lin_in_place"
   Export = FALSE
-INVARIANT ZOk
-INVARIANT TZOk
-INVARIANT MonotoneInv
-INVARIANT TailMonotoneInv
-INVARIANT TailSymmetricInv
-INVARIANT OntoSupportInv
-INVARIANT InverseCDFInv
-INVARIANT LinArgsInv
-INVARIANT TextInv
-INVARIANT SpaceInv
-INVARIANT DefaultInv
 INVARIANT ArgsFrameInv
-INVARIANT FitsInv
 CONSTRAINT Emit
 CHECK_DEADLOCK FALSE
